@@ -344,7 +344,7 @@ pub fn run(ctx: &Ctx) -> (Stats, Spec) {
     let parts = util::par_jobs(32, |job| exhaustive_job(job, 32));
     st.merge(crate::report::merge_all(parts));
     st.exhaustive.push("every formula tree with <= 2 operator nodes over {a, b} as body of `lfp a #` and `gfp a #` (monotone ones judged against all 4 candidate functions of b)".into());
-    let (iters, api) = ctx.tier.pick((4_000u64, 2_000u64), (250_000u64, 100_000u64));
+    let (iters, api) = ctx.tier.pick((10_000u64, 5_000u64), (250_000u64, 100_000u64));
     let parts = util::par_jobs(16, |job| {
         let mut s = language_job(ctx, job, iters);
         s.merge(api_job(ctx, job, api));
